@@ -98,7 +98,8 @@ def next_rule(P, R, fn):
     def is_val(n):
         r, steps = T.access_path(n)
         fl = [x[1].split("::")[-1] for x in steps if x[0] == "f"]
-        return bool(fl) and fl[-1] == "val" and steps[-1] == ("*",)
+        # the value of the control variable: `*...val` (through the varrec) or `*...valp` (the address kept in the loop record)
+        return bool(fl) and fl[-1] in ("val", "valp") and steps[-1] == ("*",)
 
     def fld(n, name):
         n = T.strip_casts(n)
@@ -402,6 +403,7 @@ def run(P, R, tier):
     linestore_rule(P, R)
     powargs_rule(P, R)
     dimsize_rule(P, R)
+    loopvar_rule(P, R)
     onrecord_rule(P, R)
     R.undecided += ["(e) arithmetic and string results for all programs", "(f) malformed programs produce a BASIC error, never a wrong value or a hang"]
     ens = [e for e in P.enums.values() if e["q"].endswith("BASIC_TOKEN")]
@@ -1262,3 +1264,33 @@ def dimsize_rule(P, R):
                             "elements, the first store writes outside the block" % (prod, dim[3]), file=f["file"], line=st[1], function=f["q"])
     if n < 1:
         R.anchor_missing(RULE, "cmddim: the size product was not found")
+
+
+def loopvar_rule(P, R):
+    """FOR / NEXT: the control variable is the variable (or array ELEMENT) named in the FOR statement.  findvar() leaves varrec::val
+    pointing to the array element named last, and every later reference to another element moves it; the loop record must therefore keep
+    the address it found at FOR time, and NEXT must increment and test through that address - not through `vp->val`, which by then may
+    point to another element (FOR c(1) ... with a body that reads c(2) incremented c(2))."""
+    RULE = "C17.loopvar"
+    R.rule(RULE, "cmdfor / cmdnext read and write the control variable through the address stored in the loop record, not through varrec::val", minimum=2)
+    for q in ("PBasic::cmdfor", "PBasic::cmdnext"):
+        f = P.one(q)
+        inst = q.split("::")[-1]
+        # dereferences of ...->UU.U0.vp->UU.U0.val  (value pointer reached through the loop record's varrec)
+        bad = []
+        for x in T.walk(f["body"]):
+            if x[0] == "Un" and x[2] == "*":
+                t = "".join(T.text(x[3], -40).split())
+                if t.endswith("U0.vp.UU.U0.val") or ".vp.UU.U0.val" in t:
+                    bad.append(x[1])
+        if q.endswith("cmdfor"):
+            # the one legitimate use: capturing the address right after findvar
+            stores = [w for w in T.walk(f["body"]) if w[0] == "Bin" and w[2] == "=" and "".join(T.text(w[3], -40).split()).endswith("valp")]
+            if not stores:
+                R.violation(RULE, inst, "cmdfor does not record the address of the control variable in the loop record", file=f["file"], line=f["line"], function=q)
+                continue
+        if bad:
+            R.violation(RULE, inst, "%s dereferences the control variable through varrec::val (line %d): for an array that is the element referenced last, not the one "
+                        "named in FOR" % (inst, bad[0]), file=f["file"], line=bad[0], function=q)
+        else:
+            R.ok(RULE, inst, "control variable reached through the stored address")
